@@ -29,14 +29,22 @@ class Context:
         return self._cache[key]
 
 
-def run_property(pid: str, tier: str, seed: int, quiet=False) -> int:
+def run_property(pid: str, tier: str, seed: int, quiet=False, shared=None) -> int:
     try:
         mod = importlib.import_module(f"mxsa.props.{pid.lower()}")
     except ModuleNotFoundError:
         print(f"ANALYSIS-ERROR property={pid}: no check is implemented for this property")
         return 2
     try:
-        ctx = Context(pid, tier)
+        if shared is not None and shared.get('ctx') is not None:
+            # several properties in one process: the source model, call graph and effect summaries are built once
+            ctx = shared['ctx']
+            ctx.pid = pid
+            ctx.res = report.Result(pid, tier, LEVELS.get(pid, 'other'))
+        else:
+            ctx = Context(pid, tier)
+            if shared is not None:
+                shared['ctx'] = ctx
         mod.run(ctx)
         stats = ctx.sm.stats()
         stats['repo'] = ctx.sm.root
@@ -72,8 +80,9 @@ def main(argv=None):
         rc = 0
         with open(os.path.join(report.VERIF, 'MANIFEST.json')) as f:
             man = json.load(f)
+        shared = {}
         for c in man['checks']:
-            r = run_property(c['property_id'], a.tier, seed, quiet=a.quiet)
+            r = run_property(c['property_id'], a.tier, seed, quiet=a.quiet, shared=shared)
             rc = max(rc, r)
         return rc
     if not a.property:
